@@ -2,7 +2,9 @@
 """Mechanical mutation sweep: how many single-token / single-statement changes to the code a
 property is anchored in does its check notice?
 
-usage: mutsweep.py Cxx [--n 20] [--seed 1] [--files f1.go,f2.go]
+usage: mutsweep.py Cxx [--n 20] [--seed 1] [--files f1.go,f2.go] [--more | --recheck]
+       --more    : add n further mutants to an existing mutation/Cxx.jsonl
+       --recheck : re-run only the mutants recorded as silent (after strengthening a check)
 
 1. coverage  : VERIF_COVER=build/cover/Cxx ./check Cxx on /repo (once) -> lines of /repo the harness executes
 2. mutants   : tools/gomutate on the property's anchor files (properties.jsonl anchors.files), restricted to
@@ -63,7 +65,24 @@ def covered_lines(pid):
     cdir = os.path.join(VERIF, "build", "cover", pid)
     if not glob.glob(cdir + "/*.out"):
         print(f"[{pid}] measuring coverage …", flush=True)
-        rc, o = run(["./check", pid], cwd=VERIF, timeout=3000, extra={"VERIF_COVER": cdir})
+        # the cover tool opens source files by path and ignores -overlay: run in a scratch worktree in
+        # which the non-test overlay files that live inside real /repo packages exist physically
+        cw = f"/tmp/cov-{pid.lower()}"
+        run(f"git -C {REPO} worktree remove --force {cw}")
+        shutil.rmtree(cw, ignore_errors=True)
+        rc, o = run(f"git -C {REPO} worktree add -q {cw} HEAD")
+        assert rc == 0, o
+        try:
+            ov = os.path.join(VERIF, "harness", "overlay")
+            for root, _, fs in os.walk(ov):
+                for fn in fs:
+                    rel = os.path.relpath(os.path.join(root, fn), ov)
+                    if fn.endswith(".go") and not fn.endswith("_test.go") and os.path.isdir(os.path.join(cw, os.path.dirname(rel))):
+                        shutil.copy(os.path.join(root, fn), os.path.join(cw, rel))
+            rc, o = run(["./check", pid], cwd=VERIF, timeout=3000, extra={"VERIF_COVER": cdir, "VERIF_REPO": cw})
+        finally:
+            run(f"git -C {REPO} worktree remove --force {cw}")
+            shutil.rmtree(cw, ignore_errors=True)
         if rc != 0:
             print(o[-2000:])
             raise SystemExit("coverage run failed")
@@ -109,6 +128,21 @@ def main():
         pool += keep
     rnd = random.Random(seed * 7919 + int(pid[1:]))
     rnd.shuffle(pool)
+    outp = os.path.join(VERIF, "mutation", f"{pid}.jsonl")
+    prev = []
+    if os.path.exists(outp):
+        prev = [json.loads(l) for l in open(outp) if l.strip()]
+    if "--recheck" in sys.argv:
+        # re-run only the mutants recorded as silent (after a check was strengthened); detected ones are kept
+        want = {(r["file"], r["id"]) for r in prev if not r["detected"]}
+        pool = [m for m in pool if (m["file"], m["id"]) in want]
+        prev = [r for r in prev if r["detected"]]
+        n = len(pool)
+    elif "--more" in sys.argv:
+        have = {(r["file"], r["id"]) for r in prev}
+        pool = [m for m in pool if (m["file"], m["id"]) not in have]
+    else:
+        prev = []
     # cap per file so that one big file does not take the whole sample
     cap = max(3, (2 * n) // max(1, len([f for f in stats if stats[f]["on_executed_lines"]])))
     wt = f"/tmp/mut-{pid.lower()}"
@@ -117,8 +151,9 @@ def main():
     rc, o = run(f"git -C {REPO} worktree add -q {wt} HEAD")
     assert rc == 0, o
     os.makedirs(os.path.join(VERIF, "mutation"), exist_ok=True)
-    outp = os.path.join(VERIF, "mutation", f"{pid}.jsonl")
-    done, perfile, recs = 0, {}, []
+    done, perfile, recs = 0, {}, list(prev)
+    if "--recheck" in sys.argv:
+        cap = 10 ** 6
     head = run("git -C /repo log -1 --format=%h")[1].strip()
     try:
         for m in pool:
@@ -162,7 +197,7 @@ def main():
                 rc, o = run(["go", "test", "-vet=off", "-count=1", "-timeout", "25m", pkg], cwd=os.path.join(wt, md), timeout=1700)
                 rec["existing_tests"] = "pass" if rc == 0 else "fail"
             recs.append(rec)
-            print(f"[{pid}] {done}/{n} {f}:{m['line']} {m['kind']} `{m['orig'][:50]}` -> "
+            print(f"[{pid}] {done}/{n} #{m['id']} {f}:{m['line']} {m['kind']} `{m['orig'][:50]}` -> "
                   f"{'DETECTED' if rec['detected'] else 'silent, tests ' + rec['existing_tests']}", flush=True)
             run(f"git -C {wt} checkout -- .")
             with open(outp, "w") as fo:
